@@ -5,5 +5,7 @@ Record shape := {
   recv_catch_unicode : bool;  (* ... and that handler also catches UnicodeDecodeError (raised by IPCBase.read) *)
   reset_on_accept : bool;     (* IPCServer.__enter__ clears buffer / message_size for every new connection *)
   args_validated : bool;      (* run_command rejects missing / unexpected argument names with an error response *)
-  send_guarded : bool         (* the reply send is inside try/except OSError: pass *)
+  send_guarded : bool;        (* the reply send is inside try/except OSError: pass *)
+  conn_timeout : bool;        (* the accepted connection gets a receive timeout before receive(server) (TimeoutError is an OSError) *)
+  stdout_guarded : bool       (* WriteToConn.write tolerates OSError from send (client hung up while a command prints) *)
 }.
